@@ -127,13 +127,31 @@ def main(tier):
         sites = [c for c in ev.trace if str(c.parts[0]).endswith(("::constrain_iso_day", "::is_valid_iso_day"))]
         if not sites:
             run.anchor_missing(rule, "sites", "no day-range helper call found", ftp.loc)
+        def const_alternative(t):
+            """an integer literal offered as one alternative of a conditional value (`match kind { X => 1972, _ => year }`)"""
+            for x in walk(t):
+                if isinstance(x, H.Sym) and x.what in ("ite", "phi"):
+                    if any(isinstance(p, int) and not isinstance(p, bool) for p in x.parts[(1 if x.what == "ite" else 0):]):
+                        return True
+                if isinstance(x, H.Sym) and x.what == "arm" and len(x.parts) > 1 and isinstance(x.parts[1], int) \
+                        and not isinstance(x.parts[1], bool):
+                    return True
+            return False
+
+        def derives(t, words):
+            """data dependence: the term reads the record parameter through a call / field whose name mentions one of `words`"""
+            names = [str(x.parts[0]) for x in walk(t) if isinstance(x, H.Sym) and x.what == "call"] + \
+                    [str(x.parts[1]) for x in walk(t) if isinstance(x, H.Sym) and x.what == "field"]
+            return "partial_date" in params_in(t) and any(w in n.lower() for n in names for w in words)
         for k, c in enumerate(sites):
-            a = [show(x) for x in c.parts[1]]
-            ok = len(a) == 3 and a[0] == "try[EraYear::try_from_partial_date($partial_date)].year" \
-                and a[1].startswith("MonthCode::to_month_integer(try[types::resolve_iso_month($partial_date") \
-                and a[2].startswith("try[types::resolve_day($partial_date.day")
-            run.check(ok, rule, "%s#%d" % (str(c.parts[0]).rsplit("::", 1)[-1], k + 1), "year, month, day of the record",
-                      "%s is called with (%s): expected the record's own resolved year, month and day" %
+            args = list(c.parts[1])
+            a = [show(x) for x in args]
+            ok = len(args) == 3 and isinstance(args[0], (H.Sym, H.V, H.S)) and derives(args[0], ("erayear", "year")) \
+                and derives(args[1], ("month",)) and derives(args[2], ("day",)) \
+                and not any(const_alternative(x) or (isinstance(x, int) and not isinstance(x, bool)) for x in args)
+            run.check(ok, rule, "%s#%d" % (str(c.parts[0]).rsplit("::", 1)[-1], k + 1), "year, month, day derive from the record",
+                      "%s is called with (%s): each argument must derive from the record's own year / month / day resolution, "
+                      "with no constant alternative" %
                       (str(c.parts[0]).rsplit("::", 1)[-1], ", ".join(x[:70] for x in a)), ftp.loc)
     # year-month arithmetic never looks at the hidden reference day
     rule = "R2.year-month-arithmetic-ignores-reference-day"
